@@ -211,6 +211,13 @@ def build(geom):
     path = arim.Path(tuple(interfaces), tuple(mats), tuple(["L"] * len(mats)))
     interior = np.array(geom["interior"], dtype=arim.settings.INT).reshape(
         len(interfaces) - 2, len(interfaces[0].points), len(interfaces[-1].points))
+    if interior.size and rng.random() < 0.25:
+        # some wall samples designated by their position counted from the END of the wall (k - numpoints): the same points
+        interior = interior.copy()
+        for k_ in range(interior.shape[0]):
+            neg_ = rng.random(interior.shape[1:]) < 0.5
+            interior[k_][neg_] -= len(interfaces[k_ + 1].points)
+        chk.count(ray_index_spelling="some counted from the end")
     if geom.get("fortran"):
         interior = np.asfortranarray(interior)
     times = np.zeros(interior.shape[1:], float, order="F" if geom.get("fortran") else "C")
@@ -640,7 +647,10 @@ def run_batch(geoms, with_reverse=True):
                 sf.append(("spec:reverse_flags", "Path.reverse does not swap the normal-side flags / reverse the interfaces",
                            dict(want=want_flags, got=got_flags)))
             want_int = np.swapaxes(np.asarray(gm["interior"]), 1, 2)[::-1]
-            if not np.array_equal(np.asarray(rgeom["interior"]), want_int):
+            # (an index may be spelled k or k - numpoints: compared as the points they designate)
+            npts_rev = np.array([len(f["points"]) for f in rgeom["interfaces"]][1:-1]).reshape(-1, 1, 1)
+            got_int = np.asarray(rgeom["interior"])
+            if got_int.shape != want_int.shape or (got_int.size and not np.array_equal(np.mod(got_int, npts_rev), np.mod(want_int, npts_rev))):
                 sf.append(("spec:reverse_rays", "Rays.reverse: indices[k, i, j] of the path is not indices[d-1-k, j, i] of the reversed rays",
                            dict(want=want_int, got=np.asarray(rgeom["interior"]))))
             else:
@@ -829,7 +839,9 @@ for s_i in range(NIMM):
     # (some scenes are described far from the origin of the GCS: site coordinates, tens to hundreds of metres)
     far_ = None if s_i % 3 != 1 else rng.uniform(-900.0, 900.0, 3) * float(rng.choice([0.02, 0.2, 1.0]))
     chk.count(immersion_scene="at the origin" if far_ is None else "translated by tens to hundreds of metres")
-    setup = arimgen.immersion_setup(rng, max_refl=int(rng.integers(0, 3)), wall_points=int(rng.integers(30, 120)), offset=far_)
+    scat_y_ = 0.0 if s_i % 4 != 2 else float(rng.uniform(2e-3, 9e-3)) * float(rng.choice([-1, 1]))
+    chk.count(immersion_targets="in the plane of the array" if scat_y_ == 0.0 else "in another slice y = const")
+    setup = arimgen.immersion_setup(rng, max_refl=int(rng.integers(0, 3)), wall_points=int(rng.integers(30, 120)), offset=far_, scat_y=scat_y_)
     batch, refs = [], []
     for name, path in setup["paths"].items():
         if rng.random() > (0.5 if Q else 0.35):
